@@ -7,12 +7,12 @@ EXTENDS BusMonitors, Sequences
 
 G == ndJsonDeserialize(IOEnv.VF_GRAPH)
 On(c) == \E k \in 1..Len(IOEnv.VF_MON) : SubSeq(IOEnv.VF_MON, k, k) = c
-OnR == On("r")  OnS == On("s")  OnT == On("t")  OnQ == On("q")  OnA == On("a")
+OnR == On("r")  OnS == On("s")  OnT == On("t")  OnQ == On("q")  OnA == On("a")  OnU == On("u")
 
 VARIABLES node, mon, lastIn
 vars == <<node, mon, lastIn>>
 
-MonInit == [rm |-> RecvInit, sm |-> SendInit, tm |-> TxInit, qm |-> ReqInit, am |-> AnsInit]
+MonInit == [rm |-> RecvInit, sm |-> SendInit, tm |-> TxInit, qm |-> ReqInit, am |-> AnsInit, um |-> RunInit]
 
 (* one event through all selected monitors; monitors that consult another one see its state BEFORE the event *)
 MonEv(m, e) ==
@@ -20,17 +20,21 @@ MonEv(m, e) ==
    sm |-> IF OnS THEN SendEv(m.sm, m.qm, e) ELSE m.sm,
    tm |-> IF OnT THEN TxEv(m.tm, m.rm, m.am, m.qm, e) ELSE m.tm,
    qm |-> IF OnQ \/ OnS \/ OnT THEN ReqEv(m.qm, e) ELSE m.qm,
-   am |-> IF OnA THEN AnsEv(m.am, m.rm, e) ELSE m.am]
+   am |-> IF OnA THEN AnsEv(m.am, m.rm, e) ELSE m.am,
+   um |-> IF OnU THEN RunEv(m.um, e) ELSE m.um]
 
 RECURSIVE FoldMon(_, _, _)
 FoldMon(m, evs, k) == IF k > Len(evs) THEN m ELSE FoldMon(MonEv(m, evs[k]), evs, k + 1)
-StepMon(m, evs) == LET m2 == FoldMon(m, evs, 1) IN IF OnQ THEN [m2 EXCEPT !.qm = ReqQuiescent(m2.qm, evs)] ELSE m2
+(* the quiescence clause is about one step of the bus thread; in run mode (token "run": arbitrary batches of events of *)
+(* several threads) a client may submit right after the handler dropped its requests, so it is not applied there        *)
+StepMon(m, evs, tok) == LET m2 == FoldMon(m, evs, 1) IN
+                        IF OnQ /\ tok # "run" THEN [m2 EXCEPT !.qm = ReqQuiescent(m2.qm, evs)] ELSE m2
 
 Init == node = 1 /\ mon = MonInit /\ lastIn = ""
 Next == \E k \in 1..Len(G[node].succ) :
           LET e == G[node].succ[k] IN
           /\ node' = e.to
-          /\ mon' = StepMon(mon, e.ev)
+          /\ mon' = StepMon(mon, e.ev, e.in)
           /\ lastIn' = e.in
 View == <<node, mon>>
 
@@ -38,6 +42,7 @@ Bad == IF OnR /\ mon.rm.bad # "" THEN mon.rm.bad
        ELSE IF OnS /\ mon.sm.bad # "" THEN mon.sm.bad
        ELSE IF OnT /\ mon.tm.bad # "" THEN mon.tm.bad
        ELSE IF OnQ /\ mon.qm.bad # "" THEN mon.qm.bad
-       ELSE IF OnA /\ mon.am.bad # "" THEN mon.am.bad ELSE ""
+       ELSE IF OnA /\ mon.am.bad # "" THEN mon.am.bad
+       ELSE IF OnU /\ mon.um.bad # "" THEN mon.um.bad ELSE ""
 MonOk == Bad = "" \/ ~PrintT(<<"VF", "MON", Bad>>)
 =============================================================================
